@@ -1321,6 +1321,7 @@ class Rewriter:
         b = self.map_calls(b, r'\bcmp::max', lambda m, a: 'umax_exec(%s, %s)' % (a[0], a[1]), 'R8:cmp-max')
         # R13: std Option/Result combinators with closure arguments are replaced by their definition (a `match`)
         b = self.desugar_combinators(b)
+        b = self.sub('R1:self-type', r'(?<![\w:])Bump::(try_with_capacity|with_capacity|try_new|new)\(', r'Self::\1(', b)
         # R12: thread the world parameter through calls of functions that take it
         for f in self.cfg.get('w_funcs', []):
             b = self.map_calls(b, r'(?:\bself\.|\bSelf::|(?<![\w.:]))' + f + r'(?:::<[^>]*>)?',
